@@ -232,7 +232,7 @@ pub fn finish(ctx: &Ctx, prop: &str, mut rep: Report, selfcheck: &[String]) -> i
                 "seed": ctx.seed, "tier": ctx.tier.name(),
             });
             if crate::relstage::is_child() {
-                body["profile"] = json!("release");
+                body["profile"] = json!(if std::env::var("VCHECK_STAGE_FLAVOUR").map(|v| v == "plain").unwrap_or(false) { "release-plain" } else { "release" });
             }
             let text = serde_json::to_string_pretty(&body).unwrap();
             let h = oracle::rng::fnv(text.as_bytes());
